@@ -20,6 +20,7 @@ import (
 	"errors"
 	"fmt"
 	"io/fs"
+	"maps"
 	"os"
 	"strings"
 
@@ -150,6 +151,12 @@ type SignatureVerification struct {
 	VerificationLevel string                              `json:"level"`
 	Override          map[ValidationType]ValidationAction `json:"override,omitempty"`
 	VerifyTimestamp   TimestampOption                     `json:"verifyTimestamp,omitempty"`
+}
+
+// clone returns a deep copy of signatureVerification
+func (signatureVerification SignatureVerification) clone() SignatureVerification {
+	signatureVerification.Override = maps.Clone(signatureVerification.Override)
+	return signatureVerification
 }
 
 type errPolicyNotExist struct{}
